@@ -3,8 +3,11 @@
 package capture
 
 import (
+	"context"
+
 	"github.com/els0r/goProbe/v4/cmd/goProbe/config"
 	"github.com/els0r/goProbe/v4/pkg/capture/capturetypes"
+	"github.com/els0r/goProbe/v4/pkg/types/hashmap"
 )
 
 // VerifNewCapture forwards to newCapture: a Capture with an empty flow log and
@@ -39,3 +42,7 @@ func VerifBufData(l *LocalBuffer) []byte { return l.data }
 
 // VerifBufElementAddSize is the per-item overhead the buffer accounts for (read only).
 const VerifBufElementAddSize = bufElementAddSize
+
+// VerifRotate forwards to the unexported Capture.rotate, the call the Manager
+// makes under the capture lock (returns nil for an empty flow log; C20).
+func (c *Capture) VerifRotate(ctx context.Context) *hashmap.AggFlowMap { return c.rotate(ctx) }
